@@ -255,7 +255,8 @@ Section EmitS.
         let e7 := fold_left (fun ee o =>
                     match fst o with
                     | LCase z =>
-                        let '(rc, ea) := new_val ee (fun v => IConst v "num" t (CInt z)) in
+                        (* the constant is the label value converted to the switch type (eval_expr of the coerced label) *)
+                        let '(rc, ea) := new_val ee (fun v => IConst v "num" t (CInt (case_val default_cfg t z))) in
                         let '(nxt, eb) := new_block ea in
                         set_block (add_ins eb (ICJump rv Ceq rc (bid_of (snd o)) (bid_of nxt))) nxt
                     | _ => ee
